@@ -14,7 +14,9 @@ Inductive output :=
 
 Record case := mkCase {
   c_parent : list (list N * list N);
-  c_parent_h : N; c_parent_ts : N; c_parent_fee : manager; c_no_height : bool;
+  c_parent_h : N; c_parent_ts : N;      (* height and timestamp stored in the parent STATE *)
+  c_parent_block_ts : N;                 (* timestamp in the parent block's header *)
+  c_parent_fee : manager; c_no_height : bool;
   c_rules : rules;
   c_block_ts : Z; c_block_h : N; c_root_ok : bool; c_too_late : bool; c_vw_dup : bool; c_fail_key : option (list N);
   c_txs : list tx;
